@@ -382,8 +382,10 @@ func (c *ClientConn) Closing(err error) {
 	c.closingMu.Lock()
 	c.closing = true
 	verifAt("clientconn.closing.flagged", c)
-	c.pending.closing(err)
+	// Notify pending requests without holding the lock: a notified request can be re-sent on another connection that
+	// is closing at the same time (and is notifying requests that are re-sent on this one).
 	c.closingMu.Unlock()
+	c.pending.closing(err)
 }
 
 func (c *ClientConn) addToPending(request Request) (int16, error) {
